@@ -407,7 +407,11 @@ class SendTask(MethodTask):
             if ex.choose(2, 'encoder-outcome') == 1:
                 st['enc_raised'] = True
                 raise PyRaise(make_exc('ValueError', 'unencodable message'))
-            return list(packets)
+            # the encoder returns one packet per frame: one, two or three packets here (bounded in the packet count;
+            # the loop body is the same for every packet)
+            k = 1 + ex.choose(3, 'packet-count')
+            st['packets'] = packets[:k]
+            return list(packets[:k])
         st['contracts'] = {f'nmea2000.encoder.NMEA2000Encoder.{m}': enc for m in ('encode_ebyte', 'encode_usb', 'encode_yacht_devices', 'encode_actisense')}
         return st
 
@@ -433,6 +437,25 @@ class SendTask(MethodTask):
                 if 0 < len(before) < len(st['packets']):
                     add('packets-of-one-message-are-contiguous: the link is held across the suspension in drain()', bool(e[2]),
                         'send() suspends in drain() between two packets of one message without holding a lock: a concurrent send() can interleave its packets', 'concurrent-send')
+        # guarantee every sender gives to the others: the link is written only while holding the send lock, and the lock is
+        # held from the first to the last packet - then no two messages can interleave, whatever their packet counts
+        held, lock_of_write, released_between, gap = [], [], False, False
+        for e in w.events:
+            if e[0] == 'acquire':
+                held.append(e[1])
+            elif e[0] == 'release':
+                if e[1] in held:
+                    held.remove(e[1])
+                if lock_of_write and e[1] is c.obj.attrs.get('_send_lock'):
+                    gap = True
+            elif e[0] == 'write':
+                if gap:
+                    released_between = True        # a packet written after the lock was let go in the middle of the message
+                lock_of_write.append(list(held))
+        send_lock = c.obj.attrs.get('_send_lock')
+        add('every-write-holds-the-send-lock', all(any(l is send_lock for l in ls) for ls in lock_of_write) and send_lock is not None,
+            'send() writes a packet to the link without holding the lock the other senders hold: its packet can land between two packets of a message being sent', 'concurrent-send')
+        add('send-lock-held-from-first-to-last-packet', not released_between, 'the send lock is released between two packets of one message', 'concurrent-send')
         enc_raised = st.get('enc_raised', False)
         if self.cls == 'ActisenseNmea2000Gateway' or enc_raised:
             what = 'format-without-an-encoder' if self.cls == 'ActisenseNmea2000Gateway' else 'unencodable-message'
@@ -658,7 +681,11 @@ class Line:
         if name == 'hex':
             return BoundBuiltin('bytes.hex', lambda ex, me: SStr([Atom('hex-of-line')]), self)
         if name == 'decode':
-            return BoundBuiltin('bytes.decode', lambda ex, me, *a, **k: TextOf(me), self)
+            def decode(ex, me, *a, **k):
+                from pyvc.abuf import strict_decode_may_fail
+                strict_decode_may_fail(ex, me, a, k)
+                return TextOf(me)
+            return BoundBuiltin('bytes.decode', decode, self)
         return None
 
 
@@ -736,7 +763,7 @@ class ReceiveImplTask(MethodTask):
         puts = w.of('put')
         msgs = st.get('messages', [])
         suspended = any(e[0] == 'suspend' for e in w.events)
-        if self.prop in ('C12', 'C20'):
+        if self.prop in ('C12', 'C20', 'C06'):
             add('queued-messages-are-exactly-the-decoded-ones-in-order', len(puts) == len(msgs) and all(a[1] is b for a, b in zip(puts, msgs)), f'{len(puts)} queued, {len(msgs)} decoded')
             add('receive-path-changes-no-connection-state', not w.of('state') and not w.of('spawn'))
             if p.kind == 'raise':
@@ -750,9 +777,9 @@ class ReceiveImplTask(MethodTask):
                 add('returns-only-after-suspending-or-consuming-input', suspended or bool(w.of('data')), 'returns at end of stream without yielding: the receive loop spins', 'eof')
             if w.of('eof'):
                 add('end-of-stream-raises', p.kind == 'raise' and p.exc_name() != 'CancelledError', f'outcome {p.kind}', 'eof')
-        if self.cls == 'WaveShareNmea2000Gateway' and self.prop in ('C12', 'C20') and 'data' in st:
+        if self.cls == 'WaveShareNmea2000Gateway' and self.prop in ('C12', 'C20', 'C06') and 'data' in st:
             self.check_serial(p, st, add)
-        elif self.prop == 'C12' and 'data' in st and p.kind == 'return':
+        elif self.prop in ('C12', 'C06') and 'data' in st and p.kind == 'return':
             add('one-packet-decoded-per-call', len(st['decode_calls']) == 1)
             if st['decode_calls']:
                 d = st['decode_calls'][0]
